@@ -198,10 +198,10 @@ def minres_cases(draw, tier):
         t = 1
     zero_col = draw(st.integers(0, t - 1)) if draw(st.integers(0, 2)) == 0 else None
     rhs = _draw_rhs(draw, dt, rb, n, t, vector=vector, zero_col=zero_col)
-    value = -1.0 if draw(st.integers(0, 5)) == 0 else None
+    value = draw(st.sampled_from([-1.0, -1.0, 2.5, 0.25, -3.0])) if draw(st.integers(0, 3)) == 0 else None  # (value K + s I) x = b
     sk = draw(st.sampled_from(["none", "scalar", "vec", "vec", "batched" if full else "vec"]))
     lmax = spec["lmax"]
-    sgn = -1.0 if value is not None else 1.0
+    sgn = -1.0 if (value is not None and value < 0) else 1.0  # shifts of the sign of `value`: the systems stay definite
     if sk == "none":
         shifts = None
     elif sk == "scalar":
@@ -444,7 +444,7 @@ def _avoid_known(case):
         avoided.append("identity_lhs_operator_batch_dropped")
     if "f32_exact_breakdown_zero_shift" in open_t and _trig_breakdown(case):
         if case["kind"] == "minres":
-            bump = (-1.0 if case.get("value") is not None else 1.0) * 0.125 * case["spec"]["lmax"]
+            bump = (-1.0 if (case.get("value") is not None and case["value"] < 0) else 1.0) * 0.125 * case["spec"]["lmax"]
             if case["shifts"] is None:
                 case["shifts"] = L.lit(bump, "f32")
             else:
